@@ -51,6 +51,7 @@ var UtxoValidationRules = []common.UtxoValidationRuleFunc{
 	UtxoValidateWrongNetworkWithdrawal,
 	UtxoValidateMaxTxSizeUtxo,
 	UtxoValidateExUnitsTooBigUtxo,
+	UtxoValidateTooManyCollateralInputs,
 	UtxoValidateNativeScripts,
 	UtxoValidateExtraneousRedeemers,
 	UtxoValidatePlutusScripts,
@@ -424,6 +425,28 @@ func UtxoValidateCollateralContainsNonAda(
 	}
 	return CollateralContainsNonAdaError{
 		Provided: providedU,
+	}
+}
+
+// UtxoValidateTooManyCollateralInputs ensures the number of collateral inputs
+// does not exceed the protocol maximum
+func UtxoValidateTooManyCollateralInputs(
+	tx common.Transaction,
+	slot uint64,
+	ls common.LedgerState,
+	pp common.ProtocolParameters,
+) error {
+	tmpPparams, ok := pp.(*AlonzoProtocolParameters)
+	if !ok {
+		return errors.New("pparams are not expected type")
+	}
+	collateralCount := uint(len(tx.Collateral()))
+	if collateralCount <= tmpPparams.MaxCollateralInputs {
+		return nil
+	}
+	return TooManyCollateralInputsError{
+		Provided: collateralCount,
+		Max:      tmpPparams.MaxCollateralInputs,
 	}
 }
 
